@@ -25,6 +25,10 @@ func main() {
 		reloadRun()
 	case "health-run":
 		healthRun()
+	case "conc-run":
+		concRun()
+	case "gate-run":
+		gateRun()
 	default:
 		fmt.Fprintln(os.Stderr, "unknown subcommand", os.Args[1])
 		vh.Flush()
